@@ -81,3 +81,30 @@ Example C07_start_nonvacuous :
   List.length (Start.cls (fst (Start.run c))) = 8%nat /\
   Start.leaked (fst (Start.after_start c)) <> nil.
 Proof. vm_compute. repeat split; discriminate. Qed.
+
+(* the same for a gnet.Client: Client.Start with any number of loops and any failing call (or none),
+   followed by Client.Stop when the start succeeded *)
+From GV Require Proofs.StartClientProofs.
+
+Theorem C07_client_start_ledger : forall n f,
+  Start.leaked (fst (Start.run_client n f)) = nil /\
+  List.NoDup (Start.cls (fst (Start.run_client n f))) /\
+  (forall id, List.In id (Start.cls (fst (Start.run_client n f))) <->
+              List.In id (List.map fst (Start.opn (fst (Start.run_client n f))))).
+Proof.
+  intros n f. split; [exact (StartClientProofs.client_no_leak n f)|].
+  split; [exact (StartClientProofs.client_closes_once n f)|exact (StartClientProofs.client_closes_created n f)].
+Qed.
+Print Assumptions C07_client_start_ledger.
+
+Theorem C07_client_failed_start_no_goroutine : forall n f s,
+  Start.after_client_start n f = (s, false) -> Start.gos s = 0%nat.
+Proof. exact StartClientProofs.client_failed_start_no_goroutine. Qed.
+Print Assumptions C07_client_failed_start_no_goroutine.
+
+Theorem C07_client_start_outcome : forall n f,
+  (snd (Start.run_client n f) = Start.Failed <-> snd (Start.after_client_start n f) = false) /\
+  (f = None -> snd (Start.run_client n f) = Start.Started) /\
+  (snd (Start.run_client n f) = Start.Started -> Start.gos (fst (Start.run_client n f)) = n).
+Proof. exact StartClientProofs.client_outcome. Qed.
+Print Assumptions C07_client_start_outcome.
